@@ -143,6 +143,11 @@ impl Caught {
     /// True when the panic originated in harness source (a harness bug), as
     /// opposed to library / dependency code.
     pub fn in_harness(&self) -> bool {
+        // the library's bounds panics are #[track_caller]: they carry the harness call site as
+        // location but the library's wording ("the length is"; std slices say "the len is")
+        if self.msg.starts_with("index out of bounds: the length is") {
+            return false;
+        }
         self.loc.starts_with("src/") || self.loc.contains("/verif/")
     }
 }
